@@ -43,6 +43,10 @@ type c45Case struct {
 	Input []int64 `json:"input"`
 	Ops   []c45Op `json:"ops"`
 	Fuse  bool    `json:"fuse"`
+	// Unbounded: give every stage an unbounded mailbox instead of the default BoundedMailbox(512).
+	// (A stage that stops with messages left in a bounded mailbox keeps a dispatcher worker spinning
+	// until the ActorSystem stops; that is an actor-runtime matter and makes runs slow.)
+	Unbounded bool `json:"unbounded"`
 }
 
 type c45Result struct {
@@ -203,6 +207,11 @@ func c45RunCase(sys actor.ActorSystem, c c45Case, timeout time.Duration) c45Resu
 	var terminals, completions atomic.Int64
 	col, sink := c45Collect(&terminals, &completions)
 	g := src.To(sink)
+	if c.Unbounded {
+		for _, st := range g.stages {
+			st.config.Mailbox = actor.NewUnboundedMailbox()
+		}
+	}
 	if !c.Fuse {
 		g = g.WithFusion(FuseNone)
 	}
